@@ -100,7 +100,7 @@ PROPS = {
     ),
     "C09": dict(
         pkg="c09",
-        units=[rapid("TestProp", 1200, 6000, memlimit="4GiB"), rapid("TestPropLegacy", 600, 3000, memlimit="4GiB")],
+        units=[rapid("TestProp", 900, 6000, memlimit="4GiB"), rapid("TestPropLegacy", 450, 3000, memlimit="4GiB")],
         assumptions=COMMON_ASSUME + ["a Patch value is observed through its exported representation (a slice of maps from member name to raw message): keys, pointer identities and bytes; input buffers are observed over their full capacity",
                                      "the history-free answer is taken from a fresh process (this test binary re-executed) that performs only that call (for the Apply family: DecodePatch then the call)",
                                      "the staged legacy root package is built from /repo's working tree as module github.com/evanphx/json-patch"],
